@@ -151,6 +151,30 @@ func TestC08(t *testing.T) {
 			planted++
 			r.Class("shape:erroneous-descriptor.proto-override")
 		}
+		switch i % 8 {
+		case 5:
+			// a requested file that cannot be resolved (never shown to the reporter) next to files with reported errors
+			src["needs_missing.proto"] = "syntax = \"proto3\";\npackage nm;\nimport \"does/not/exist.proto\";\nmessage NM { int32 x = 1; }\n"
+			if rng.Bool() {
+				names = append([]string{"needs_missing.proto"}, names...)
+			} else {
+				names = append(names, "needs_missing.proto")
+			}
+			if rng.Bool() {
+				names = append(names, "not_there_at_all.proto")
+			}
+			r.Class("shape:unresolvable-file-among-the-requested")
+		case 7:
+			// an import cycle between two files (reported through the root handler) next to other reported errors
+			src["cyc_a.proto"] = "syntax = \"proto3\";\npackage cyc;\nimport \"cyc_b.proto\";\nmessage CA { int32 x = 1; }\n"
+			src["cyc_b.proto"] = "syntax = \"proto3\";\npackage cyc;\nimport \"cyc_a.proto\";\nmessage CB { int32 x = 1; }\n"
+			names = append(names, "cyc_a.proto")
+			if rng.Bool() {
+				names = append(names, "cyc_b.proto")
+			}
+			planted++
+			r.Class("shape:import-cycle-among-the-requested")
+		}
 		if i%4 != 0 && i%8 != 3 {
 			for k, f := range m.Files {
 				if f.GetName() == "opts/options.proto" || !rng.Chance(0.7) {
